@@ -8,6 +8,7 @@ functions: the model returns them as `V.host` terms which the harness evaluates 
 -/
 import Verif.Model.Value
 import Verif.Model.Tokenizer
+import Verif.Model.CaseMap
 
 namespace Verif
 
@@ -17,7 +18,8 @@ def fnNames : List String :=
    "Floor", "Round", "Trunc", "Truncate", "Cos", "Sin", "Tan", "Sqr", "Sqrt", "Empty", "Null",
    "Contains", "Array"]
 
-def upperStr (s : List Rune) : List Rune := s.map upperRune
+/-- `strings.ToUpper` (full Unicode simple case mapping, regenerated table) -/
+def upperStr (s : List Rune) : List Rune := upperFullStr s
 
 /-- FunctionCollection.FindByName: case-insensitive, first registration wins; returns the
 registered (canonical) name -/
